@@ -49,6 +49,7 @@ pub fn fill(dest: &mut [u8]) -> Result<(), Error> {
         let d = DRAWS;
         DRAWS = d + 1;
         if d == FAIL_AT {
+            vmodel::RNG_FAILED = true;
             return Err(Error);
         }
         #[cfg(kani)]
